@@ -68,6 +68,8 @@ pub enum Mutn {
     LPlus,
     LMinus,
     BlindOther,
+    /// one scalar of the artefact written as value + r (the same residue, not a canonical encoding)
+    ScalarPlusR(u16),
     /// one more disclosed message than indexes
     MsgSurplus,
     /// one more index than disclosed messages
@@ -95,6 +97,7 @@ fn mutn() -> impl Strategy<Value = Mutn> {
         1 => Just(Mutn::LPlus),
         1 => Just(Mutn::LMinus),
         1 => Just(Mutn::BlindOther),
+        2 => any::<u16>().prop_map(Mutn::ScalarPlusR),
         1 => Just(Mutn::MsgSurplus),
         1 => any::<u16>().prop_map(Mutn::IndexSurplus),
         2 => any::<u16>().prop_map(Mutn::IndexRepeat),
@@ -277,6 +280,11 @@ pub fn diff<CS: BbsCiphersuite>(rep: &Report, ck: &str, op: &Op) -> D {
                     sb[bit / 8] ^= 1 << (bit % 8)
                 }
                 Mutn::ZeroScalar(_) => sb[48..].iter_mut().for_each(|x| *x = 0),
+                Mutn::ScalarPlusR(_) => {
+                    if let Some(a) = plus_r(&sb[48..80]) {
+                        sb[48..80].copy_from_slice(&a)
+                    }
+                }
                 Mutn::IdentityPoint(_) => {
                     sb[..48].iter_mut().for_each(|x| *x = 0);
                     sb[0] = 0xc0
@@ -362,6 +370,13 @@ pub fn diff<CS: BbsCiphersuite>(rep: &Report, ck: &str, op: &Op) -> D {
                     let off = 144 + 32 * pick(*i, n);
                     pb[off..off + 32].iter_mut().for_each(|x| *x = 0);
                 }
+                Mutn::ScalarPlusR(i) => {
+                    let n = (pb.len() - 144) / 32;
+                    let off = 144 + 32 * pick(*i, n);
+                    if let Some(a) = plus_r(&pb[off..off + 32]) {
+                        pb[off..off + 32].copy_from_slice(&a)
+                    }
+                }
                 Mutn::IdentityPoint(i) => {
                     let off = 48 * pick(*i, 3);
                     pb[off..off + 48].iter_mut().for_each(|x| *x = 0);
@@ -423,6 +438,13 @@ pub fn diff<CS: BbsCiphersuite>(rep: &Report, ck: &str, op: &Op) -> D {
                     let n = (cb.len() - 48) / 32;
                     let off = 48 + 32 * pick(*i, n);
                     cb[off..off + 32].iter_mut().for_each(|x| *x = 0);
+                }
+                Mutn::ScalarPlusR(i) => {
+                    let n = (cb.len() - 48) / 32;
+                    let off = 48 + 32 * pick(*i, n);
+                    if let Some(a) = plus_r(&cb[off..off + 32]) {
+                        cb[off..off + 32].copy_from_slice(&a)
+                    }
                 }
                 _ => {}
             }
@@ -505,6 +527,16 @@ pub fn diff<CS: BbsCiphersuite>(rep: &Report, ck: &str, op: &Op) -> D {
                         let at = k + ((*i as usize >> 1) % 2);
                         d.insert(at, if *i % 3 == 0 { d[k].clone() } else { b"never signed".to_vec() });
                         ix.insert(at, ix[k]);
+                    }
+                }
+                Mutn::ScalarPlusR(i) => {
+                    let n = (pb.len() - 144) / 32;
+                    let off = 144 + 32 * pick(*i, n);
+                    if let Some(a) = plus_r(&pb[off..off + 32]) {
+                        pb[off..off + 32].copy_from_slice(&a)
+                    }
+                    if let Some(a) = plus_r(&sb[48..80]) {
+                        sb[48..80].copy_from_slice(&a)
                     }
                 }
                 Mutn::LPlus => lv += 1,
@@ -677,7 +709,7 @@ pub fn run(ctx: &Ctx, rep: &Report) -> Meta {
     run_cases(ctx, rep, "schedules", ctx.tier.pick(48, 400), 60, schedule_strat, |s| run_schedule(rep, "schedules", s));
     Meta {
         rule: "generated operations: KeyGen/SkToPk (ikm 0..200 octets, key_info up to 65536, key_dst up to 300 or None), histories of create_generators(count, api_id) calls (count 0..=64 quick / 1100 thorough; api_id in {None, empty, both API ids, BLIND_-prefixed, random ASCII}), \
-               hash_to_scalar (dst up to 400 octets), messages_to_scalars, Sign, and verifier decisions on honest and mutated artefacts (message / header / ph / pk edits, bit flips, index shifts, whole-scalar framing edits, zero scalars, identity points, trailing bytes, L+-1, other blinding factor, list shapes of the disclosed data: one more message than indexes, one more (unlisted) index than messages, a second entry under an index that is already listed) \
+               hash_to_scalar (dst up to 400 octets), messages_to_scalars, Sign, and verifier decisions on honest and mutated artefacts (message / header / ph / pk edits, bit flips, index shifts, whole-scalar framing edits, zero scalars, a scalar written as value + r, identity points, trailing bytes, L+-1, other blinding factor, list shapes of the disclosed data: one more message than indexes, one more (unlisted) index than messages, a second entry under an index that is already listed) \
                for verify, proof_verify, blind_sign's commitment validation, verify_blind_sign, blind_proof_verify; proofs and commitments made by the library must be accepted by the reference and vice versa; \
                oracle: byte equality of outputs and equality of Ok/Err decisions with the independent reference model, which must first reproduce every fixture; \
                size sweep: Sign octets, proof and blind round trips for every L in 0..=72 (quick) / 0..=260 (thorough); a third of the operations after a warm-up history; schedules: lists of such operations executed by 2, 4 or 16 threads released from a barrier in rotated orders; non-trivial = every generated operation (none coincides with a fixture); evaluations = compared outputs / decisions"
